@@ -35,8 +35,17 @@ def run(ctx):
         ok, out = ctx.run_harness(b, [tr, pairs, ctx.tier], tr)
         if ok:
             ctx.validate(TRACE_MODULE, tr, label="pure")
+    # the intrinsic specialisations (bitCount / bitfieldReverse steps on aligned 4 x 32-bit vectors, func_integer_simd.inl): the same
+    # harness with the default qualifier switched to aligned_highp; judged by the same trace specification
+    for vl, isa in ([("aligned-sse2", ["-msse2"])] if ctx.quick else [("aligned-sse2", ["-msse2"]), ("aligned-avx2", ["-mavx2", "-mfma"])]):
+        ba = ctx.build("c05_" + vl.replace("-", "_"), "c05.cpp", flags=["-DGLM_FORCE_INTRINSICS", "-DGLM_FORCE_DEFAULT_ALIGNED_GENTYPES"] + isa)
+        if ba:
+            tra = ctx.scratch.path("c05-%s.ndjson" % vl)
+            ok, out = ctx.run_harness(ba, [tra, pairs, ctx.tier], tra)
+            if ok:
+                ctx.validate(TRACE_MODULE, tra, label=vl)
     ctx.rule("8-bit types: every value (exhaustive) through every scalar/vector overload and every documented (offset,bits) pair; "
              "16-bit: every value in the thorough tier, lattice + random in quick; 32/64-bit: single-bit, run-of-ones, alternating, "
              "boundary patterns + seeded random; carry family: all lattice pairs + random; each event judged bit-exactly by TLC "
-             "against GlmInteger.tla", exhaustive=False)
+             "against GlmInteger.tla; repeated in an intrinsic build whose default qualifier is aligned_highp", exhaustive=False)
     ctx.assumptions += ["TLC evaluates the TLA+ definitions faithfully", "32/64-bit kernels are exercised on structured + random values, not exhaustively"]
